@@ -34,6 +34,16 @@ CHECKS = {
   "The 12x6x5 matrix is enumerated completely (each cell built and decoded), config globs expanding to 1..20 files and generated mixed lists are added; registration of configuration and special files is compared with the declaration in both directions.",
   "Trusts the harness decoders and the rpm FILEFLAGS constants taken from rpm's rpmfiles.h.",
   "4/C08"),
+ "C06": ("fault_enumeration",
+  "runtime monitoring with fault injection: fault-injecting io.Writer at every write index (sticky error, short write, one-shot), source/script/changelog/key references removed one at a time, failing sign callbacks, invalid-setting classes, and the real nfpm binary against /dev/full (strace ENOSPC injection in thorough)",
+  "For every generated config x format x signed/unsigned the clean run's N writes are counted and EVERY k in [0,N) is replayed with three fault variants (exhaustive over k); every file reference is removed one at a time; every invalid-setting class and signer failure is injected; the CLI must exit non-zero, print the cause and leave nothing at the target. Package must return non-nil whenever the fault was reached.",
+  "A write fault is an error return (full or short count); writers that break the io.Writer contract are out of scope. Exhaustive over write indices of the configs that were generated, not over configs.",
+  "4/C06"),
+ "C07": ("exploration",
+  "runtime monitoring: differential replay of the same build under varied clock, GOMAXPROCS, timezone, process, path spelling and mtime source, with a timestamp monitor over every decoded time field",
+  "Each (case, format) is built 9 times in-process (repeat, GOMAXPROCS 1..16, across a wall-clock second) and 5-7 times through the nfpm binary (TZ, GOMAXPROCS, relative/absolute paths, YAML mtime vs SOURCE_DATE_EPOCH incl. 0); all outputs must be byte-identical and every stored timestamp must come from the configuration or the sources.",
+  "Package mtimes are drawn from 2001-2037, far from the build clock, so a clock leak cannot coincide with an allowed value. gzip MTIME 0 and pgzip's constant 2288912640 both mean 'unset'.",
+  "4/C07"),
  "C05": ("exploration",
   "runtime monitoring: bounded-exhaustive enumeration of content lists against a set-based reference planner, plus normal-form invariant monitors on every returned plan and 25x repetition for map-order dependence",
   "Every content list up to the length bound over a universe of overlapping destinations x types x packager tags x targets is prepared by the real files.PrepareForPackager and compared with a reference planner; all destination spellings up to a length bound are checked for the normal form; generated larger lists are compared with the reference plan. exhaustive for the stated bounds (quick: lists <= 2, spellings <= 5; thorough: lists <= 3, spellings <= 6).",
